@@ -1,5 +1,6 @@
 import TenpyModel.C11.Proofs
 import TenpyModel.C11.SumProofs
+import TenpyModel.C11.UIProofs
 /-!
 # C11 — MPO algebra equals operator algebra: property theorems
 
@@ -95,6 +96,19 @@ theorem C11_add {κ α : Type} [DecidableEq κ] [Semiring α] (lk rk : κ) (hlr 
     coeff (pathsFrom SK.r (sumLayers lk rk as bs) SK.l) t
       = coeff (pathsFrom rk as lk) t + coeff (pathsFrom rk bs lk) t :=
   (sum_glued lk rk hlr as bs h).2 SK.l trivial t
+
+/-- **`make_U_I`, first order.**  `W_I` with symbolic virtual indices: on every site the column `IdL`
+absorbs `dt ×` the column `IdR`, row and column `IdR` are removed, start and end state are `IdL`.  Over the
+dual numbers (`dt = ε`, `ε² = 0`) the denoted operator is `1 + ε·H`: the coefficient of `dt⁰` is the
+identity string, the coefficient of `dt¹` is the operator denoted by the Hamiltonian MPO — for every
+chain length and every MPO in standard form with identity entries `IdL → IdL`, `IdR → IdR`.
+(The index shifts of `MPOM.makeUI` are compared exactly with the implementation on every run, where
+the same two coefficients are also evaluated on the integer-indexed model.) -/
+theorem C11_UI_first_order {κ α : Type} [DecidableEq κ] [CommSemiring α] (lk rk : κ) (hlr : lk ≠ rk)
+    (as : List (List (Edge κ α))) (h : ∀ la ∈ as, StdId lk rk la) (t : OpStr) :
+    (coeff (pathsFrom lk (uiLayers lk rk as) lk) t).fst = coeff [(idStr as.length, (1 : α))] t ∧
+    (coeff (pathsFrom lk (uiLayers lk rk as) lk) t).snd = coeff (pathsFrom rk as lk) t :=
+  (ui_first_order lk rk hlr as h).2.1 t
 
 /-! ## non-vacuity: concrete instances run through the executable model -/
 
